@@ -394,3 +394,155 @@ def rule_null_array(ck, facts, R):
         ck.ok(R, "null-array|GetArrayElem", {"vm": sorted(vm_handle), "wasm": sorted(wasm_handle)})
     else:
         ck.bad(R, "null-array|GetArrayElem", "reading an element of the uninitialised/empty array handle: %s special-cases the handle value %s (yields zeros) while %s does not (the handle lookup aborts): indexing an empty array gives a value on one back end and a panic on the other" % (("WASM", sorted(wasm_handle), "the VM") if wasm_handle else ("the VM", sorted(vm_handle), "WASM")), vd.fn.where())
+
+
+# --------------------------------------------------------------------------------------------------
+# per-site side tables: the bytecode generator appends one entry per emitted instruction (FuncProto::delay_sizes:
+# the ring length of each `delay` site; the instruction itself has no room for it); the VM must select the entry of
+# *this* site.  WASM takes the length from the MIR instruction operand of the site.
+def _field_refs(f, field_suffix, mutable=None):
+    """(block, stmt) of `_x = &[mut] <place ending in field>`"""
+    from ..facts import place_fields
+    out = []
+    for b, s in f.all_stmts():
+        if s[KIND] == "a" and s[5][0] == "ref" and (mutable is None or bool(s[5][2]) == mutable):
+            fl = place_fields(s[5][1])
+            if fl and fl[-1] and fl[-1].endswith(field_suffix):
+                out.append((b, s))
+    return out
+
+
+def _origin_field(di, op, depth=16):
+    """follow copies, re-borrows and receiver-position calls (deref, last, unwrap, ...) of an operand back to the first
+    place that names a struct field / enum payload; returns that field name or None"""
+    from ..facts import place_fields
+    for _ in range(depth):
+        rr = di.resolve(op)
+        if rr[0] == "place":
+            fl = [x for x in place_fields(rr[1]) if x and "::" in x]
+            if fl:
+                return fl[-1]
+            op = ["cp", [rr[1][0], []]]
+            continue
+        if rr[0] == "call":
+            if not rr[1][5]:
+                return None
+            op = rr[1][5][0]
+            continue
+        if rr[0] == "rv":
+            rv = rr[1][5]
+            if rv[0] in ("ref", "raw"):
+                fl = [x for x in place_fields(rv[1]) if x and "::" in x]
+                if fl:
+                    return fl[-1]
+                op = ["cp", [rv[1][0], []]]
+                continue
+            if rv[0] in ("cast", "un"):
+                op = rv[2]
+                continue
+            if rv[0] == "use":
+                op = rv[1]
+                continue
+        return None
+    return None
+
+
+def rule_site_table(ck, facts, R):
+    from .. import roles
+    from ..cfg import DefIndex
+    from ..facts import place_fields
+    ck.rule(R, "a per-site side table of the function prototype (one entry appended by the bytecode generator per emitted instruction: delay_sizes) is read by the VM at a position that identifies the executing site: an instruction operand, or a per-frame cursor that the VM advances; a cursor that is only ever reset selects the first site's entry for every site")
+    lang = facts.crate(roles.LANG)
+    TABLE = "FuncProto::delay_sizes"
+    pushes = []
+    for f in lang.fns:
+        if "::compiler::bytecodegen" not in f.path or f.kind == "promoted":
+            continue
+        di = DefIndex(f)
+        for b, t in f.calls():
+            if (callee(t) or "").split("::")[-1] != "push" or not t[5]:
+                continue
+            r = di.resolve(t[5][0])
+            if r[0] == "rv" and r[1][5][0] == "ref":
+                fl = place_fields(r[1][5][1])
+                if fl and fl[-1] and fl[-1].endswith(TABLE):
+                    pushes.append((f, t))
+    ck.require(R, len(pushes) >= 1, "anchor|site-table-push", "the bytecode generator no longer appends to FuncProto::delay_sizes (anchor lost)")
+    if not pushes:
+        return
+    # the VM's reads of the table and where their index comes from
+    readers = []
+    for f in lang.fns:
+        if "::runtime::vm" not in f.path or f.kind == "promoted" or "::test" in f.path:
+            continue
+        if _field_refs(f, TABLE):
+            readers.append(f)
+    ck.require(R, len(readers) >= 1, "anchor|site-table-read", "no VM function reads FuncProto::delay_sizes")
+    CURSOR = None
+    for f in readers:
+        di = DefIndex(f)
+        for b, t in f.calls():
+            n = (callee(t) or "").split("::")[-1]
+            if n not in ("get_unchecked", "index", "get") or len(t[5]) < 2:
+                continue
+            tf = _origin_field(di, t[5][0])
+            if not (tf and tf.endswith(TABLE)):
+                continue
+            of = _origin_field(di, t[5][1])
+            origin = None
+            if of and "bytecode::Instruction::" in of:
+                origin = ("operand", of)
+            elif of and "::Machine::" in of:
+                origin = ("cursor", of)
+            else:
+                # a local of the dispatching function (one per activation) that the function itself advances
+                rr = di.resolve(t[5][1])
+                loc = rr[1] if rr[0] == "multi" else None
+                if loc is not None and loc >= 0:
+                    incs = []
+                    for bb, i, st in di.defs.get(loc, []):
+                        if i is None:
+                            continue
+                        rv = st[5]
+                        r2 = di.resolve(rv[1]) if rv[0] == "use" else ("rv", st)
+                        if r2[0] == "place" and r2[1][1] and r2[1][1][-1][0] == "f":
+                            r2 = di.resolve(["cp", [r2[1][0], []]])
+                        if r2[0] == "rv" and r2[1][5][0] == "bin" and r2[1][5][1] in ("add", "add_ov"):
+                            ops = r2[1][5][2:4]
+                            if any(o[0] in ("cp", "mv") and o[1][0] == loc for o in ops) and any(o[0] == "c" for o in ops):
+                                incs.append(bb)
+                    if incs:
+                        from ..cfg import reachable
+                        after = reachable(f, t[7]) if t[7] is not None else set()
+                        if any(bb in after for bb in incs):
+                            origin = ("local", "local _%d of %s, incremented after the read" % (loc, f.short))
+            if origin is None:
+                ck.bad(R, "index-origin|delay_sizes", "%s: cannot establish where the index into FuncProto::delay_sizes comes from" % f.short, f.where(t))
+                continue
+            if origin[0] == "operand":
+                ck.ok(R, "table|delay_sizes", {"index": "instruction operand " + origin[1]})
+                continue
+            if origin[0] == "local":
+                ck.ok(R, "table|delay_sizes", {"index": origin[1]})
+                ck.note("delay_sizes is selected by the dynamic ordinal of the executed delay: not decided for functions whose delays sit in conditional blocks (the ordinal then differs from the static position)")
+                continue
+            CURSOR = origin[1]
+            field = CURSOR.split("::")[-1]
+            muts = {}
+            for g in lang.fns:
+                if "::runtime::vm" not in g.path or g.kind == "promoted" or "::test" in g.path:
+                    continue
+                refs = _field_refs(g, "Machine::" + field, mutable=True)
+                if not refs:
+                    continue
+                locs = {s[4][0] for _, s in refs}
+                dg = DefIndex(g)
+                for b2, t2 in g.calls():
+                    for a in t2[5]:
+                        if a[0] in ("cp", "mv") and not a[1][1] and a[1][0] in locs:
+                            muts.setdefault((callee(t2) or "").split("::")[-1], []).append((g, t2))
+            advancing = sorted(n for n in muts if n not in ("push", "pop", "clear", "truncate", "len", "last", "is_empty"))
+            if advancing:
+                ck.ok(R, "table|delay_sizes", {"index": "cursor " + CURSOR, "advanced_through": advancing})
+            else:
+                ck.bad(R, "cursor-never-advances|delay_sizes", "%s indexes FuncProto::delay_sizes with the top of %s, which the VM only ever pushes (0) and pops (%s): every `delay` of a function runs with the ring length of the function's *first* delay, while its cell was sized (and WASM runs it) with its own length: wrong delay times on the VM, and reads/writes outside the cell when a later delay is shorter than the first" % (f.short, CURSOR, sorted(muts) or "no mutable access at all"), f.where(t))
